@@ -1799,6 +1799,84 @@ func (c *Ctx) minLenAt(fn *ssa.Function, blk *ssa.BasicBlock, root ssa.Value) (l
 	return lb, other
 }
 
+// fixedDigestSize: v is a hash state made by a constructor of the standard
+// library whose digest size is fixed (sha256.New, crypto.SHA256.New(), ...).
+func (c *Ctx) fixedDigestSize(v ssa.Value) (int64, bool) {
+	call, ok := ir.StripIface(ir.StripConv(v)).(*ssa.Call)
+	if !ok {
+		return 0, false
+	}
+	switch ir.CallID(call) {
+	case "crypto/md5.New":
+		return 16, true
+	case "crypto/sha1.New":
+		return 20, true
+	case "crypto/sha256.New224", "crypto/sha512.New512_224":
+		return 28, true
+	case "crypto/sha256.New", "crypto/sha512.New512_256":
+		return 32, true
+	case "crypto/sha512.New384":
+		return 48, true
+	case "crypto/sha512.New":
+		return 64, true
+	case "crypto.Hash.New":
+		if len(call.Call.Args) != 1 {
+			return 0, false
+		}
+		k, isK := ir.ConstInt(call.Call.Args[0])
+		if !isK {
+			return 0, false
+		}
+		for nm, size := range map[string]int64{"MD5": 16, "SHA1": 20, "SHA224": 28, "SHA256": 32, "SHA384": 48, "SHA512": 64, "SHA512_224": 28, "SHA512_256": 32} {
+			if want, found := c.constInt("crypto", nm); found && want == k {
+				return size, true
+			}
+		}
+	}
+	return 0, false
+}
+
+// lenByConstruction: a lower bound of the length of the slice root that holds
+// because of how the value is made, whatever the input: the sum a hash state
+// of fixed digest size appends (h.Sum(b) has len(b) + h.Size() bytes), an
+// array sliced without an upper bound, a make with a constant length.
+func (c *Ctx) lenByConstruction(root ssa.Value) (int64, bool) {
+	switch x := ir.StripConv(root).(type) {
+	case *ssa.Call:
+		if ir.CallID(x) == "hash.Hash.Sum" && x.Call.IsInvoke() {
+			return c.fixedDigestSize(x.Call.Value)
+		}
+	case *ssa.Slice:
+		if x.High != nil {
+			return 0, false
+		}
+		p, isP := x.X.Type().Underlying().(*types.Pointer)
+		if !isP {
+			return 0, false
+		}
+		arr, isArr := p.Elem().Underlying().(*types.Array)
+		if !isArr {
+			return 0, false
+		}
+		lo := int64(0)
+		if x.Low != nil {
+			k, isK := ir.ConstInt(x.Low)
+			if !isK {
+				return 0, false
+			}
+			lo = k
+		}
+		if arr.Len()-lo >= 0 {
+			return arr.Len() - lo, true
+		}
+	case *ssa.MakeSlice:
+		if k, isK := ir.ConstInt(x.Len); isK && k >= 0 {
+			return k, true
+		}
+	}
+	return 0, false
+}
+
 // ruleArrayConversion (T9): converting a slice to an array (or array pointer)
 // panics when the slice is shorter than the array. A slice whose length comes
 // from input needs a dominating test of its length.
@@ -1835,6 +1913,9 @@ func (c *Ctx) ruleArrayConversion(rule string, in func(*ssa.Function) bool) int 
 			key := ordinalKey(counts, name(fn)+":arrayconv")
 			construct := strings.TrimPrefix(key, name(fn)+":")
 			lb, other := c.minLenAt(fn, cv.Block(), root)
+			if k, known := c.lenByConstruction(root); known && k > lb {
+				lb = k
+			}
 			what := "a slice is converted to an array only where it is known to be long enough"
 			switch {
 			case lb >= arr.Len():
